@@ -181,6 +181,9 @@ def ops_table():
         ("apply(kv, npts+1 rows)", lambda c: c.apply(list(c.knotvector), [[F(int(i == j)) for j in range(c.npts)] for i in range(c.npts + 1)]), True),
         ("apply(unsorted kv, identity)", lambda c: c.apply([F(0), F(2), F(1)], [[F(int(i == j)) for j in range(c.npts)] for i in range(c.npts)]), True),
         ("apply(kv, identity)", lambda c: c.apply(list(c.knotvector), [[F(int(i == j)) for j in range(c.npts)] for i in range(c.npts)]), True),
+        # a weight function with a zero exactly AT a sample (the first knot): the refusal is a ValueError like every other refused weight list (D46)
+        ("weights=zero-at-umin", lambda c: setattr(c, "weights", [F(0)] + [F(1)] * (c.npts - 1)), True),
+        ("apply(kv, first row zero)", lambda c: c.apply(list(c.knotvector), [[F(int(i == j and i > 0)) for j in range(c.npts)] for i in range(c.npts)]), True),
     ]
 
 
